@@ -1,27 +1,56 @@
-use mdnsverif::world::*;
-use mdnsverif::*;
-use std::net::IpAddr;
+//! `check <Cxx> [quick|thorough] [--seed N]` — runs one property's workload and monitor.
 
-fn lab() {
-    util::install_panic_hook();
-    let mut w = World::new(1);
-    w.record_gates = false;
-    let h = w.add_host(vec![IfSpec::new("eth0", 2, 0, &[("10.0.0.5", 24)])]);
-    let mon = w.monitor(h);
-    let addrs: Vec<IpAddr> = vec!["10.0.0.5".parse().unwrap()];
-    let reg = World::reg_info("_t._udp.local.", "inst", "host.local.", &addrs, 80, &[("k", Some(b"v"))]);
-    w.register(h, reg);
-    let b = w.browse(h, "_t._udp.local.");
-    w.run_for(5000);
-    for l in w.trace.render(0, 200) {
-        println!("{l}");
-    }
-    println!("mon={mon:?} browse={b:?} iterations={}", w.total_iterations);
-}
+use mdnsverif::report::Report;
+use mdnsverif::{props, util, Tier};
 
 fn main() {
     let args: Vec<String> = std::env::args().collect();
-    if args.get(1).map(|s| s.as_str()) == Some("lab") {
-        lab();
+    let prop = args.get(1).cloned().unwrap_or_default();
+    let mut tier_name = std::env::var("VERIF_TIER").unwrap_or_else(|_| "quick".to_string());
+    let mut seed: u64 = std::env::var("VERIF_SEED")
+        .ok()
+        .and_then(|s| s.parse().ok())
+        .unwrap_or(1);
+    let mut i = 2;
+    while i < args.len() {
+        match args[i].as_str() {
+            "quick" | "thorough" => tier_name = args[i].clone(),
+            "--tier" => {
+                i += 1;
+                tier_name = args.get(i).cloned().unwrap_or(tier_name);
+            }
+            "--seed" => {
+                i += 1;
+                seed = args.get(i).and_then(|s| s.parse().ok()).unwrap_or(seed);
+            }
+            _ => {}
+        }
+        i += 1;
     }
+    util::install_panic_hook();
+    let tier = Tier::from_env(&tier_name);
+    let report = Report::new(&prop, tier.name(), seed);
+
+    // Whole-run watchdog: firing is inconclusive, never a violation.
+    let limit = tier.budget_s * 4.0 + 300.0;
+    let p2 = prop.clone();
+    std::thread::spawn(move || {
+        std::thread::sleep(std::time::Duration::from_secs_f64(limit));
+        println!("INCONCLUSIVE property={p2} reason=whole-run watchdog ({limit:.0}s) fired");
+        std::process::exit(2);
+    });
+
+    match prop.as_str() {
+        "C01" => props::c01::run(&report, &tier),
+        "C02" => props::c02::run(&report, &tier),
+        "lab" => {
+            props::lab();
+            return;
+        }
+        _ => {
+            eprintln!("usage: check <C01..C20> [quick|thorough] [--seed N]");
+            std::process::exit(2);
+        }
+    }
+    std::process::exit(report.finish());
 }
